@@ -374,6 +374,31 @@ func (c *Ctx) lockStateStructure(fn *ssa.Function) {
 			}
 		}
 	}
+	// ... and whenever: a failed attempt inside the window that reaches the
+	// threshold places the lock — also when the account is locked already (the
+	// lock then lasts LockDuration from the latest failure). A way from the entry
+	// to the save that contradicts none of the three conditions must pass PutLocked.
+	if len(fn.Blocks) > 0 && nLocked >= 1 {
+		notReached := func(f Fact) bool {
+			rel := f.Rel()
+			return (rel.Op == token.LSS && isCountPlus1(rel.X) && fieldLoadName(rel.Y) == "LockAfter") ||
+				(rel.Op == token.GTR && isCountPlus1(rel.Y) && fieldLoadName(rel.X) == "LockAfter")
+		}
+		q := PathQuery{StartBlock: fn.Blocks[0], Cut: func(i ssa.Instruction) bool {
+			ic, ok := i.(ssa.CallInstruction)
+			return ok && ic.Common().IsInvoke() && ic.Common().Method.Name() == "PutLocked"
+		}, PruneFact: func(f Fact) bool {
+			return (lm.mentions(f) && !lm.saysFail(f)) || outWindow(f) || notReached(f)
+		}, Goal: func(i ssa.Instruction) bool {
+			ic, ok := i.(ssa.CallInstruction)
+			return ok && Callee(ic) == fnSave
+		}}
+		if p := q.Find(); p != nil {
+			r.Bad("C04.cmp", name, "threshold reached ⇒ PutLocked", posf(c, p[len(p)-1]), "a failed attempt inside the window that reaches LockAfter can be saved without the lock being placed (a further condition stands in front of PutLocked): the lock is not started, or not renewed, by that failure", c.P.DescribePath(p)...)
+		} else {
+			r.Ok("C04.cmp", name, "threshold reached ⇒ PutLocked", c.P.Pos(fn.Pos()), "every way to the save with the threshold reached inside the window places the lock")
+		}
+	}
 	r.Check(nLocked >= 1 && nCount >= 2, "C04.state", name, "puts present", c.P.Pos(fn.Pos()), sprintf("%d PutLocked, %d PutAttemptCount", nLocked, nCount), sprintf("expected at least 1 PutLocked and 2 PutAttemptCount sites, found %d and %d", nLocked, nCount))
 	// PutLastAttempt(now) on every path before Save
 	okLast := false
